@@ -23,6 +23,7 @@ def run(ctx):
     unlock(ctx, P)
     lock(ctx, P)
     lock_unlock_agree(ctx, P)
+    tag_binding(ctx, P)
     from_slice(ctx, P)
     # the password-to-key derivation hashes the whole password (shared with C12): a truncated or mis-ordered S2K input lets other passwords unlock
     from rules import c12
@@ -166,6 +167,38 @@ def lock(ctx, P):
     callers = sorted(p for p, r in ctx.f.bodies.items() if ctx.wrap(r).calls(r'plain_secret::s2k_usage_aead$'))
     ctx.check(P + ':who-calls-usage-aead', 'R-who', 's2k_usage_aead is the single derivation shared by lock and unlock',
               set(callers) == {'types::params::plain_secret::PlainSecretParams::encrypt', U}, table=callers)
+
+
+def tag_binding(ctx, P):
+    """S2K usage 253 binds the packet type into the key derivation and the associated data.  Lock and unlock agree only if both take
+    the tag of the key they operate on: at every call of PlainSecretParams::encrypt / EncryptedSecretParams::unlock the tag argument
+    is the tag of the object's own stored packet header, or a constant that is the tag of the implementing type
+    (SecretKey -> Tag::SecretKey, SecretSubkey -> Tag::SecretSubkey)."""
+    n = 0
+    per_type = {}
+    for p, r in sorted(ctx.f.bodies.items()):
+        if r.get('derived') or '::tests::' in p:
+            continue
+        b = ctx.wrap(r)
+        cs = b.calls(r'EncryptedSecretParams::unlock$|PlainSecretParams::encrypt$')
+        if not cs:
+            ctx.functions.discard(p)
+            continue
+        self_ty = (r.get('impl_self') or '').split('::')[-1]
+        for i, t in cs:
+            ks = [j for j, a in enumerate(t['args']) if 'l' in a and not a['pr'] and 'Option<types::packet::Tag>' in b.r['locals'][a['l']]['ty']]
+            if not ks:
+                continue
+            n += 1
+            og = b.operand_origins(t['args'][ks[0]])
+            consts = sorted(set(m.group(1) for x in og for m in [re.match(r'agg:types::packet::Tag::(\w+)$', x)] if m))
+            own = has_origin(og, r'call:.*PacketHeader::tag$') and has_origin(og, r'field:%s\.packet_header$' % re.escape(self_ty)) if self_ty else has_origin(og, r'call:.*PacketHeader::tag$')
+            ok = (own and not consts) or (not own and consts == [self_ty])
+            per_type.setdefault(self_ty, set()).add(('own' if own else '') + '|'.join(consts))
+            ctx.check('%s:tag-binding:%s:%s' % (P, p, t['f']['fn'].split('::')[-1]), 'R-sib',
+                      '%s passes the packet tag of the key it operates on to %s (its own stored header, or the constant tag of %s)' % (p.split('::')[-1], t['f']['fn'].split('::')[-1], self_ty or 'its type'),
+                      ok, function=p, site=site(b, i), missing=None if ok else 'tag argument: %s in an impl of %s' % (consts or 'unrelated value', self_ty))
+    ctx.floor(P + ':tag-binding:floor', 'lock / unlock call sites that pass a packet tag', n, 6)
 
 
 def lock_unlock_agree(ctx, P):
